@@ -423,6 +423,15 @@ example : (({} : Mores).store "al@a".toList "Alice".toList false [o3, o2, o1]).r
 
 example : ∀ act ∈ exActs, act.key = ircLower "al@a".toList → act.plain = true := by decide
 
+/-- The keys of `_mores` are lowered with the rfc1459 mapping, whatever CASEMAPPING any network's 005
+announces before, between or after: what a reply stored under `user@host` is what a later `more` by the
+same `user@host` finds (`~`, `[`, `]`, `\\` in the ident, host or nick included). -/
+theorem mores_key_stable (m : Mores) (mask nick : Str) (priv : Bool) (msgs : List Out) :
+    (m.store mask nick priv msgs).listOf (ircLower mask) = some msgs := by
+  rw [(store_eq m mask nick priv msgs).2]; exact bindFresh_listOf_self _ _ _
+
+example : ircLower "~Al[1]\\x@Host".toList = "^al{1}|x@host".toList := by decide
+
 /-! ## the text itself -/
 
 /-- For a reply without formatting codes, nothing is lost and nothing invented: the chunks are lines
